@@ -175,7 +175,7 @@ def tensor_hash(t) -> str:
     t = t.detach()
     if hasattr(t, "to_local"):
         t = t.to_local()
-    return hashlib.sha1(t.contiguous().view(torch.uint8).numpy().tobytes()).hexdigest()[:16] if t.numel() else "empty"
+    return hashlib.sha1(t.contiguous().reshape(-1).view(torch.uint8).numpy().tobytes()).hexdigest()[:16] if t.numel() else "empty"
 
 
 def block_state_tensors(opt, gi):
